@@ -9,12 +9,15 @@ use dlt_core::dlt::*;
 /// string chunks: 1-4 byte scalars, punctuation, XML-ish and control characters, never NUL
 pub const CHUNKS: &[&str] = &[
     "a", "Z", "0", " ", "_", "é", "ß", "€", "中", "𝄞", "😀", "~", "\u{7f}", "\u{1}", "\n", "%", "/", "\"", "<",
-    "&", "\u{80}", "\u{7ff}", "\u{800}", "\u{ffff}", "\u{10000}", "\u{10ffff}", "\u{fffd}",
+    "&", "\u{80}", "\u{7ff}", "\u{800}", "\u{ffff}", "\u{10000}", "\u{10ffff}", "\u{fffd}", "\u{feff}",
 ];
 
 pub fn gen_text(r: &mut Rng, max_bytes: usize, typical: usize) -> String {
     let target = r.size(typical, max_bytes);
     let mut s = String::with_capacity(target + 4);
+    if max_bytes >= 3 && target >= 3 && r.chance(1, 24) {
+        s.push('\u{feff}'); // a leading byte-order mark is ordinary text content
+    }
     if target > 64 {
         // long strings: mostly ASCII filler with occasional multi-byte scalars
         while s.len() < target {
@@ -146,9 +149,26 @@ pub fn gen_value(r: &mut Rng, kind: &TypeInfoKind, max_data: usize) -> Value {
         TypeInfoKind::Unsigned(BitLength128) => Value::U128(big),
         TypeInfoKind::Float(Width32) => Value::F32(f32::from_bits(f32_bits(r))),
         TypeInfoKind::Float(Width64) => Value::F64(f64::from_bits(f64_bits(r))),
+        TypeInfoKind::StringType if max_data >= 33_000 && r.chance(1, 3) => {
+            // lengths around the 15-bit boundary and up to what fits
+            let cap = max_data.min(65534);
+            let n = match r.below(5) {
+                0 => 32766,
+                1 => 32767,
+                2 => 32768,
+                3 => cap,
+                _ => r.range(32760, cap as u64) as usize,
+            }
+            .min(cap);
+            let mut t = gen_text(r, n, n);
+            while t.len() < n {
+                t.push((b'a' + r.below(26) as u8) as char);
+            }
+            Value::StringVal(t)
+        }
         TypeInfoKind::StringType => Value::StringVal(gen_text(r, max_data.min(65534), 12)),
         TypeInfoKind::Raw => {
-            let n = r.size(12, max_data.min(65535));
+            let n = if max_data >= 33_000 && r.chance(1, 3) { *r.pick(&[32767usize, 32768, 32769, max_data.min(65535)]) } else { r.size(12, max_data.min(65535)) };
             Value::Raw(r.bytes_magic(n))
         }
     }
@@ -167,12 +187,47 @@ pub fn gen_arg_of(r: &mut Rng, kind: TypeInfoKind, vari: bool, budget: usize) ->
         has_trace_info: r.chance(1, 4),
     };
     let text_budget = (budget / 4).min(65534);
-    let name = if vari { Some(gen_text(r, text_budget, 6)) } else { None };
-    let unit = if vari && is_numeric(&kind) {
-        Some(gen_text(r, text_budget, 4))
+    // rarely one of name / unit is huge: lengths around the 15-bit boundary 32767 and up to the field maximum
+    let huge = if vari && budget >= 40_000 && r.chance(1, 6) { 1 + r.below(2) } else { 0 };
+    let huge_len = |r: &mut Rng| -> usize {
+        let cap = (budget - 2_000).min(65534);
+        match r.below(6) {
+            0 => 32766,
+            1 => 32767,
+            2 => 32768,
+            3 => cap,
+            _ => r.range(32760, cap as u64) as usize,
+        }
+        .min(cap)
+    };
+    let exact_text = |r: &mut Rng, n: usize| -> String {
+        let mut t = gen_text(r, n, n);
+        while t.len() < n {
+            t.push((b'a' + r.below(26) as u8) as char);
+        }
+        t
+    };
+    let name = if vari {
+        if huge == 1 {
+            let n = huge_len(r);
+            Some(exact_text(r, n))
+        } else {
+            Some(gen_text(r, text_budget, 6))
+        }
     } else {
         None
     };
+    let unit = if vari && is_numeric(&kind) {
+        if huge == 2 {
+            let n = huge_len(r);
+            Some(exact_text(r, n))
+        } else {
+            Some(gen_text(r, text_budget, 4))
+        }
+    } else {
+        None
+    };
+    let budget = if huge > 0 { 1_900 } else { budget };
     let fixed_point = match kind {
         TypeInfoKind::SignedFixedPoint(w) | TypeInfoKind::UnsignedFixedPoint(w) => Some(FixedPoint {
             quantization: f32::from_bits(f32_bits(r)),
@@ -183,7 +238,9 @@ pub fn gen_arg_of(r: &mut Rng, kind: TypeInfoKind, vari: bool, budget: usize) ->
         }),
         _ => None,
     };
-    let value = gen_value(r, &kind, budget / 2);
+    let used = name.as_ref().map_or(0, |n| n.len() + 3) + unit.as_ref().map_or(0, |n| n.len() + 3) + 8;
+    let value_budget = if matches!(kind, TypeInfoKind::StringType | TypeInfoKind::Raw) && r.chance(1, 3) { budget.saturating_sub(used) } else { budget / 2 };
+    let value = gen_value(r, &kind, value_budget);
     Argument {
         type_info: ti,
         name,
@@ -225,6 +282,19 @@ pub struct GenOpts {
     pub force_htyp_flags: Option<u8>,
     /// allow the rare huge/boundary layouts (255 args, total exactly 65535)
     pub boundaries: bool,
+    /// the serialised length (without storage header) is exactly `max_total`
+    pub force_exact: bool,
+}
+
+impl GenOpts {
+    /// a message whose total length is one of the 16 largest the length field can express
+    /// (65520..=65535): with a storage header it is longer than 65535 bytes
+    pub fn near_max(r: &mut Rng) -> GenOpts {
+        let mut o = GenOpts::normal();
+        o.max_total = 65535 - r.below(16) as usize;
+        o.force_exact = true;
+        o
+    }
 }
 
 impl GenOpts {
@@ -236,6 +306,7 @@ impl GenOpts {
             force_storage: None,
             force_htyp_flags: None,
             boundaries: true,
+            force_exact: false,
         }
     }
     pub fn small() -> GenOpts {
@@ -246,6 +317,7 @@ impl GenOpts {
             force_storage: None,
             force_htyp_flags: None,
             boundaries: false,
+            force_exact: false,
         }
     }
 }
@@ -276,8 +348,44 @@ fn gen_msin_for(r: &mut Rng, kind: PKind) -> u8 {
     }
 }
 
+/// A well-formed message whose standard header serialises to the four bytes of the storage-header
+/// pattern: HTYP 0x44 (version 2, ECU id, little endian, no extended header), counter 0x4C,
+/// length 0x5401. Legal, but looks like the start of a storage header.
+pub fn pattern_start_msg(r: &mut Rng, storage: bool) -> Message {
+    let payload = PayloadContent::NonVerbose(r.special64() as u32, r.bytes_magic(0x5401 - 8 - 4));
+    Message {
+        storage_header: if storage {
+            Some(StorageHeader {
+                timestamp: DltTimeStamp {
+                    seconds: r.special64() as u32,
+                    microseconds: r.special64() as u32,
+                },
+                ecu_id: gen_id(r),
+            })
+        } else {
+            None
+        },
+        header: StandardHeader {
+            version: 2,
+            endianness: Endianness::Little,
+            has_extended_header: false,
+            message_counter: 0x4C,
+            ecu_id: Some(gen_id(r)),
+            session_id: None,
+            timestamp: None,
+            payload_length: 0x5401 - 8,
+        },
+        extended_header: None,
+        payload,
+    }
+}
+
 /// A random well-formed message.
 pub fn gen_msg(r: &mut Rng, o: &GenOpts) -> Message {
+    if o.boundaries && !o.force_exact && o.max_total >= 0x5401 && o.force_kind.is_none() && o.force_htyp_flags.is_none() && r.chance(1, 150) {
+        let storage = o.force_storage.unwrap_or_else(|| r.chance(1, 2));
+        return pattern_start_msg(r, storage);
+    }
     let kind = o.force_kind.unwrap_or_else(|| match r.below(20) {
         0..=8 => PKind::Verbose,
         9..=12 => PKind::NonVerbose,
@@ -301,14 +409,20 @@ pub fn gen_msg(r: &mut Rng, o: &GenOpts) -> Message {
         + 10 * has_ext as usize;
     let max_payload = o.max_total.min(65535) - hdr;
     // payload budget: mostly typical, sometimes up to the maximum
-    let mode = if o.boundaries { r.below(100) } else { 50 };
+    let mode = if o.force_exact {
+        0
+    } else if o.boundaries {
+        r.below(100)
+    } else {
+        50
+    };
     let budget = match mode {
         0 => max_payload,                       // exact boundary (total = max_total)
         1 => max_payload.saturating_sub(1),     // one below
         2..=5 => r.usize_below(max_payload + 1), // anything
         _ => r.usize_below(o.typical_total.min(max_payload) + 1),
     };
-    let exact = o.boundaries && mode <= 1;
+    let exact = (o.boundaries && mode <= 1) || o.force_exact;
     let payload = match kind {
         PKind::Verbose => {
             let mut args: Vec<Argument> = vec![];
